@@ -135,7 +135,7 @@ var RuleFloors = map[string]RuleFloor{
 	"GUARD":     {38, []string{"C09", "C11", "C12", "C08"}},
 	"HANDBUILT": {2, []string{"C18"}},
 	"ITEMFLAGS": {6, []string{"C10", "C08", "C01"}},
-	"JOIN":      {44, []string{"C07", "C09"}},
+	"JOIN":      {30, []string{"C07", "C09"}},
 	"KEYS":      {30, []string{"C04", "C08", "C10", "C01", "C19"}},
 	"LAYOUT":    {9, []string{"C19"}},
 	"LIFECYCLE": {7, []string{"C12"}},
@@ -155,7 +155,7 @@ var RuleFloors = map[string]RuleFloor{
 	"TAGGED":    {30, []string{"C18"}},
 	"TENANT":    {18, []string{"C16"}},
 	"TRANSFER":  {8, []string{"C14"}},
-	"TXSTATE":   {12, []string{"C07", "C11"}},
+	"TXSTATE":   {4, []string{"C07", "C11"}},
 	"TYPETAB":   {9, []string{"C18"}},
 	"VALID":     {12, []string{"C18"}},
 	"VECLEN":    {4, []string{"C18"}},
